@@ -100,6 +100,12 @@ def census(scfg, fdef, orig_src):
     got_if = sum(1 for n in ast.walk(fdef) if isinstance(n, ast.If) and isinstance(n.test, ast.Compare) and len(n.test.ops) == 1 and isinstance(n.test.ops[0], ast.In) and isinstance(n.test.left, ast.Name) and n.test.left.id in ctrl_vars and id(n.test) not in block_stmt_ids)
     if got_if != want_if:
         raise M.Viol("G-cascade", f"{got_if} membership-test ifs, head/exit-branch blocks need {want_if}")
+    from numba_scfg.core.datastructures.basic_block import SyntheticFill
+
+    nfill = sum(1 for b in flat.blocks.values() if isinstance(b, SyntheticFill))
+    npass = sum(1 for n in ast.walk(fdef) if isinstance(n, ast.Pass) and id(n) not in block_stmt_ids)
+    if npass != nfill:
+        raise M.Viol("G-fill", f"{npass} synthetic pass statements for {nfill} fill blocks")
     nloops = sum(1 for r in flat.regions.values() if r.kind == "loop")
     nwhile = sum(1 for n in ast.walk(fdef) if isinstance(n, ast.While) and isinstance(n.test, ast.Name) and n.test.id.startswith("__scfg_loop_cont_"))
     if nloops != nwhile:
